@@ -127,6 +127,15 @@ def check_message(L, case, kw, msg):
         want = a_repr.repr(value)
         if m.group(1) != want:
             out.append(("C20.R3", "rendering-differs-from-a_repr", {"case": case["id"], "param": name, "shown": m.group(1)[:160], "a_repr": want[:160], "len_shown": len(m.group(1)), "len_a_repr": len(want)}))
+    for name, value in (case.get("all_vars") or {}).items():
+        # the counter-example block of a failing all(...): "  <loop variable> = <value>"
+        m = re.search(r"^  %s = (.*)$" % re.escape(name), msg, re.M)
+        if not m:
+            out.append(("C20.R3", "counter-example-line-missing", {"case": case["id"], "variable": name}))
+            continue
+        want = a_repr.repr(value)
+        if m.group(1) != want:
+            out.append(("C20.R3", "counter-example-rendering-differs-from-a_repr", {"case": case["id"], "variable": name, "shown": m.group(1)[:120], "a_repr": want[:120], "len_shown": len(m.group(1)), "len_a_repr": len(want)}))
     for ph, flag in (("_ARGS", "names_args"), ("_KWARGS", "names_kwargs")):
         m = re.search(r"(?:^|\n|: )%s was " % ph, msg, re.M)
         if m and not case.get(flag):
@@ -137,6 +146,74 @@ def check_message(L, case, kw, msg):
 # -------------------------------------------------------------------------------------------------
 # histories
 # -------------------------------------------------------------------------------------------------
+RELOAD_VARIANTS = [
+    ("x > 0", {"x": -5, "verbose": False}),
+    ("x < LIMIT", {"x": 500, "verbose": False}),
+    ("verbose == (x > 3)", {"x": 5, "verbose": False}),
+    ("abs(x) < 2", {"x": -7, "verbose": True}),
+    ("len(str(x)) > LIMIT", {"x": 12345, "verbose": True}),
+]
+RELOAD_TEMPLATE = "import icontract\n\nLIMIT = 10\n\n\n@icontract.require(lambda x, verbose: %s)\ndef g(x, verbose):\n    return x\n"
+_RELOAD_N = [0]
+
+
+def _reload_step(st, icontract):
+    """Violate a contract, replace the module's source by one with a different lambda on the same line, reload, violate
+    again: the second message must be the one a fresh load of the new source gives.  Returns (message after reload,
+    reference message), paths normalised."""
+    import importlib
+    import importlib.util
+    import shutil
+    import tempfile
+
+    d = tempfile.mkdtemp(prefix="verif-c20-reload-")
+    try:
+        _RELOAD_N[0] += 1
+        name = "c20_reload_mod_%d" % _RELOAD_N[0]
+        path = os.path.join(d, "c20_reload_mod.py")
+        os.mkdir(os.path.join(d, "ref"))
+        ref_path = os.path.join(d, "ref", "c20_reload_mod.py")
+
+        def load(nm, p):
+            spec = importlib.util.spec_from_file_location(nm, p)
+            mod = importlib.util.module_from_spec(spec)
+            sys.modules[nm] = mod
+            spec.loader.exec_module(mod)
+            return mod
+
+        def violate(mod, kw, p):
+            try:
+                mod.g(**kw)
+            except icontract.ViolationError as e:
+                return str(e).replace(p, "<FILE>")
+            return "NO-VIOLATION"
+
+        va, vb = RELOAD_VARIANTS[st["a"]], RELOAD_VARIANTS[st["b"]]
+        with open(path, "w") as f:
+            f.write(RELOAD_TEMPLATE % va[0])
+        sys.path.insert(0, d)
+        importlib.invalidate_caches()
+        sys.modules.pop("c20_reload_mod", None)
+        mod = importlib.import_module("c20_reload_mod")
+        violate(mod, va[1], path)
+        with open(path, "w") as f:
+            f.write(RELOAD_TEMPLATE % vb[0])
+        os.utime(path, (2000000000 + _RELOAD_N[0], 2000000000 + _RELOAD_N[0]))
+        importlib.invalidate_caches()
+        importlib.reload(mod)
+        after = violate(mod, vb[1], path)
+        with open(ref_path, "w") as f:
+            f.write(RELOAD_TEMPLATE % vb[0])
+        ref = violate(load(name + "_ref", ref_path), vb[1], ref_path)
+        return after, ref
+    finally:
+        sys.modules.pop("c20_reload_mod", None)
+        sys.modules.pop(name + "_ref", None)
+        if d in sys.path:
+            sys.path.remove(d)
+        shutil.rmtree(d, ignore_errors=True)
+
+
 def gen_history(r, L):
     engine = r.choice(["sync", "sync", "loop", "threads"])
     steps = []
@@ -148,6 +225,11 @@ def gen_history(r, L):
             if engine == "threads" and c.get("async"):
                 continue
             steps.append({"k": "case", "case": c["id"], "order": r.randrange(10 ** 6), "pause": r.choice([0, 0, 1, 2])})
+        elif x < 0.74:
+            if engine != "sync":
+                continue  # the step rebinds process-global import state; only on the single main actor
+            a, b = r.sample(range(len(RELOAD_VARIANTS)), 2)
+            steps.append({"k": "reload", "a": a, "b": b})
         elif x < 0.8:
             steps.append({"k": "noise", "x": -r.randint(1, 100)})
         elif x < 0.9:
@@ -178,6 +260,10 @@ def run_history(L, h, by_id):
         k = st["k"]
         if k == "clearcache":
             linecache.clearcache()
+            return
+        if k == "reload":
+            after, ref = _reload_step(st, icontract)
+            results.append(("__reload__", (st["a"], st["b"]), (after, ref), {}))
             return
         if k == "noise":
             try:
@@ -273,6 +359,7 @@ def worker(argv):
     compared = {}
     handoffs = 0
     n_msgs = 0
+    n_reload = 0
     for hi in range(nh):
         if only is not None and hi != only:
             continue
@@ -282,6 +369,20 @@ def worker(argv):
         for cid, order, msg, kw in res:
             if cid == "__stats__":
                 handoffs += msg[1]
+                continue
+            if cid == "__reload__":
+                n_msgs += 1
+                n_reload += 1
+                if msg[0] != msg[1]:
+                    violations.append(
+                        {
+                            "rule": "C20.R1",
+                            "classifier": "message-after-source-reload-differs-from-fresh-load",
+                            "detail": {"case": "reload", "variants": list(order), "after_reload": msg[0][:300], "fresh_load": msg[1][:300], "history": hi},
+                            "widx": widx,
+                            "history": hi,
+                        }
+                    )
                 continue
             case = by_id[cid]
             n_msgs += 1
@@ -318,6 +419,7 @@ def worker(argv):
         "compared": {k: sorted([list(x[0]), x[1]] for x in v) for k, v in compared.items()},
         "n_messages": n_msgs,
         "handoffs": handoffs,
+        "reloads": n_reload,
     }
     sys.stdout.write("C20WORKER " + json.dumps(out, default=str) + "\n")
     return 0
@@ -418,6 +520,7 @@ def main_check(tier, seed):
                 "cases_with_message": len(ref),
                 "distinct_case_kworder_engine_combinations": len(combos),
                 "thread_handoffs": sum(r["handoffs"] for r in results),
+                "source_reload_steps": sum(r.get("reloads", 0) for r in results),
                 "runs_per_hour": int(len(results) * nh * 3600 / max(wall, 1e-6)),
                 "components": runmod.COMPONENTS,
                 "exhaustive": False,
